@@ -52,6 +52,16 @@ func runC09(e *core.Env) {
 		r := core.NewRand(e.Seed, 9, uint64(i))
 		d := gen.Document(r, gen.Opts{MaxRecs: 6, MinRecs: 1, MaxEntries: 6, Unicode: r.Bool(), Hostile: r.Chance(2, 3), OpenRanges: 1, Tags: r.Intn(3), TrailingBlank: r.Chance(2, 3),
 			LookAlikes: r.Chance(2, 3), JSONHostile: r.Chance(1, 6), MaxHours: r.PickInt(30, 500)})
+		switch core.Hash64("c09-size", fmt.Sprint(e.Seed, i)) % 1500 {
+		case 0, 1, 2: // more than a thousand records
+			if x, ok := withAppended(d, manyRecordsText(r, r.PickInt(1001, 1500, 2300))); ok {
+				d = x
+			}
+		case 3, 4, 5: // a line beyond 64 KiB
+			if x, ok := withAppended(d, longLineText(r, r.PickInt(65536, 70000, 140000))); ok {
+				d = x
+			}
+		}
 		e.Begin(i, []byte(d.Text))
 		c09Check(e, r, i, d)
 		e.End(i)
@@ -137,7 +147,7 @@ func c09Check(e *core.Env, r *core.Rand, idx int64, d *gen.Out) {
 	if e.WantSample() && len(d.Text) < 350 && nonCanon {
 		e.Sample(map[string]any{"file": d.Text, "printed": p1})
 	}
-	if idx%60 == 11 && e.KlogBin != "" {
+	if (idx%60 == 11 || len(d.Text) > 60000) && e.KlogBin != "" { // (every oversized document also goes through the real pipe)
 		b1 := obs.RunBin(obs.BinEnv{Bin: e.KlogBin, ConfigDir: e.Dir + "/bincfg", Stdin: []byte(d.Text)}, "print", "--no-style", "--no-warn")
 		if b1.Err != nil {
 			e.Inconclusive("could not run the klog binary: " + b1.Err.Error())
